@@ -89,6 +89,11 @@ def monitor_res(case):
             for sid, off, n in v:
                 vregs[sid].append((off, n))
                 wfs[sid] += 1
+        if not res and (any(snap['smask']) or any(snap['lmask']) or any(any(m) for m in snap['vmasks'])
+                        or list(snap['wffree']) != pool):
+            return ('call %d: every work-group that was reserved has been freed, but the free resources of the CU differ '
+                    'from the initial ones (sreg %s lds %s vreg %s wfFree %s): a work-group did not return exactly what it took'
+                    % (i, snap['smask'], snap['lmask'], snap['vmasks'], snap['wffree']))
         for name, size, regs, mask in [('SGPR', ssize, sregs, snap['smask']), ('LDS', lsize, lregs, snap['lmask'])] + \
                 [('VGPR of SIMD %d' % j, vsize[j], vregs[j], snap['vmasks'][j]) for j in range(len(pool))]:
             cells = paint(size, regs)
@@ -119,6 +124,12 @@ def monitor_cp(case):
                                      # launches in one message are allowed: the emulation CU batches them)
         if e.get('crash'):
             return 'event %d (%s): the command processor panicked on protocol-respecting traffic' % (i, e['e'])
+        if e.get('idle_dirty'):
+            return ('event %d: a dispatcher is idle (no kernel) but its bookkeeping is not what it was when it was built: %s'
+                    % (i, e['idle_dirty']))
+        if e.get('pool_dirty'):
+            return ('event %d: no dispatcher has a kernel (all work-groups completed) but the shared CU resource pool '
+                    'is not back to its initial state: %s' % (i, e['pool_dirty']))
         if e['e'] == 'launch' and e.get('acc'):
             if e['launch']['id'] in launches:
                 return None
@@ -239,7 +250,7 @@ def strip(case):
                 'ndisp': case['ndisp'], 'cap': case.get('cap', 0), 'alg': case.get('alg', ''),
                 'events': [{k: e[k] for k in ('e', 'launch', 'ids') if k in e} for e in case['events']]}
     return {'mode': 'res', 'hostile': case.get('hostile', False), 'cfg': case['cfg'],
-            'ops': [{k: o[k] for k in ('op', 'key', 'nwf', 'sgpr', 'vgpr', 'lds')} for o in case['ops']]}
+            'ops': [{k: o[k] for k in ('op', 'key', 'nwf', 'sgpr', 'vgpr', 'lds', 'dyn') if k in o} for o in case['ops']]}
 
 
 SEQ = {'cp': 'events', 'emu': 'actions', 'res': 'ops'}
@@ -296,7 +307,7 @@ def main(argv):
                    'hand-written models coq/cp/Resource.v (curesourceimpl.go, resourcemask.go, curesourcepool.go) and '
                    'coq/cp/Dispatcher.v (dispatcher.go, roundrobin.go, cpMiddleware.go launch path, commandprocessor.go Tick)',
                    'Go harness harness/cmd/c09 (fake CUs, stub connection, ID renumbering) and the add-only verif export '
-                   'files amd/timing/cp/verif_export.go, amd/timing/cp/internal/resource/verif_export.go',
+                   'files amd/timing/cp/verif_export{,_build,_state}.go, amd/timing/cp/internal/{resource,dispatching}/verif_export.go',
                    'grid enumeration (kernels.GridBuilder) taken as the list of work-groups it returns (property C08)',
                    'akita port buffers modelled as bounded FIFOs']
     rep.assumptions = ['theorems: any finite sequence of reserve/free calls (resource layer), any finite sequence of '
@@ -384,6 +395,20 @@ def main(argv):
     handles = [collections.Counter(e.get('id', 0) for e in (t or []) if e['e'] == 'handle') for c in emu_cases for t in (c.get('cutr') or [])]
     rep.coverage.update({
         'cp_small_port_cases': sum(1 for c in cp_cases if c.get('cap')),
+        'cp_one_dispatcher_sequences': sum(1 for c in cp_cases if c.get('seq')),
+        'cp_one_dispatcher_sequences_with_3_or_more_responses':
+            sum(1 for c in cp_cases if c.get('seq') and sum(1 for e in c['events'] if e.get('rsp') is not None) >= 3),
+        'cp_state_inspections_after_tick': sum(1 for c in cp_cases for e in c['events'] if e['e'] == 'tick'),
+        'cp_launches_by_packet_lds': dict(collections.Counter(
+            'none' if not e['launch'].get('dyn') else 'equal' if e['launch']['dyn'] == e['launch']['lds'] else
+            'larger' if e['launch']['dyn'] > e['launch']['lds'] else 'smaller'
+            for c in cp_cases for e in c['events'] if e['e'] == 'launch' and e.get('acc'))),
+        'res_reservations_by_packet_lds': dict(collections.Counter(
+            'none' if not o.get('dyn') else 'equal' if o['dyn'] == o['lds'] else
+            '64KiB' if o['dyn'] == 65536 else 'larger' if o['dyn'] > o['lds'] else 'smaller'
+            for c in res_cases for o in c['ops'] if o['op'] == 'r' and o.get('ok'))),
+        'res_returns_to_empty_checked': sum(1 for c in res_cases if not c.get('hostile') for k, o in enumerate(c['ops'])
+                                            if o['op'] == 'f' and not o.get('crash') and o.get('snap') and not o['snap'].get('nres', 1)),
         'cp_deliveries_refused': sum(1 for c in cp_cases for e in c['events'] if e.get('acc') is False),
         'cp_algorithms': dict(collections.Counter(c.get('alg') or 'round-robin' for c in cp_cases)),
         'emu_cases': len(emu_cases),
@@ -398,7 +423,9 @@ def main(argv):
                 'overlapping launches (1-D/2-D/3-D grids with partial groups, some that never fit), completions in random '
                 'order and grouping; every 6th history hostile (double reserve, unknown free, empty work-group, no SIMD; '
                 'duplicate/unknown/mixed completion ids). non-trivial = res: >= 2 successful reservations and a free; '
-                'cp: >= 2 MapWGReq and a completion',
+                'cp: >= 2 MapWGReq and a completion; every reservation/launch carries a packet LDS size (0, equal, larger, 64 KiB); '
+                'a quarter of the non-hostile cp histories are sequences of 3-6 kernels through one dispatcher with a rarely emptied '
+                '1-2 entry driver port; after every tick the dispatchers\' private bookkeeping and the shared pool are inspected',
         'traces_validated_against_impl': len(cases),
         'res_calls': sum(len(c['ops']) for c in res_cases),
         'res_reserve_ok': sum(1 for c in res_cases for o in c['ops'] if o['op'] == 'r' and o.get('ok')),
